@@ -163,6 +163,13 @@ func TestC11MapExhaustive(t *testing.T) {
 // big fills, drains to a small remainder and many parked iterators are reached by short lists.
 func genCase(t *rapid.T) Case {
 	keys := rapid.SampledFrom([]int{2, 3, 4, 8, 32, 100, 300}).Draw(t, "keys")
+	// about one case in 40 (thorough: 80) works on a key space of a few thousand: whole-range fills and drains, several
+	// rounds of them (the drawn value that selects it is the largest one, so shrinking leaves it first)
+	top := vstat.Pick(39, 79) // the thorough tier runs 80 times as many cases
+	huge := rapid.IntRange(0, top).Draw(t, "sizeclass") == top
+	if huge {
+		keys = rapid.SampledFrom([]int{1500, 3000, 5000}).Draw(t, "hugekeys")
+	}
 	maxIt := rapid.SampledFrom([]int{1, 2, 3, 6, 12, 24}).Draw(t, "maxit")
 	key := rapid.OneOf(rapid.IntRange(0, keys-1), rapid.IntRange(0, min(keys-1, 3)))
 	cnt := func(hi int) *rapid.Generator[int] { // a count in 0..hi: anything, small, or (nearly) everything
@@ -170,7 +177,11 @@ func genCase(t *rapid.T) Case {
 	}
 	slot := rapid.IntRange(0, maxIt-1)
 	opGen := rapid.Custom(func(t *rapid.T) Op {
-		switch k := rapid.IntRange(0, 35).Draw(t, "kind"); {
+		k := rapid.IntRange(0, 38).Draw(t, "kind")
+		if huge && k <= 25 && rapid.IntRange(0, 3).Draw(t, "bulkier") != 0 {
+			k = 26 + k%13 // a list of single calls hardly moves a map of thousands: mostly bulk ops there
+		}
+		switch {
 		case k <= 5:
 			return Op{K: OpAdd, Key: key.Draw(t, "key"), V: rapid.IntRange(0, 9).Draw(t, "v")}
 		case k <= 10:
@@ -199,14 +210,21 @@ func genCase(t *rapid.T) Case {
 			return Op{K: OpAdvAll, N: cnt(keys).Draw(t, "n")}
 		case k <= 34:
 			return Op{K: OpNextN, I: slot.Draw(t, "i"), N: cnt(keys).Draw(t, "n")}
-		default:
+		case k <= 35:
 			return Op{K: OpCloseAll, Rev: rapid.Bool().Draw(t, "rev")}
+		case k <= 37:
+			return Op{K: OpChurn, Key: key.Draw(t, "key"), N: cnt(keys).Draw(t, "n"), I: rapid.IntRange(0, 3).Draw(t, "rounds"), Rev: rapid.Bool().Draw(t, "rev"), V: rapid.IntRange(0, 9).Draw(t, "v")}
+		default:
+			return Op{K: OpScan}
 		}
 	})
 	// rapid's SliceOf produces about 5 elements on average whatever the upper bound is; nesting the
 	// list (chunks of chunks, flattened and cut at maxLen) yields long histories as well and - unlike a
 	// drawn minimum length - still shrinks to a handful of ops, because no level enforces a minimum.
 	maxLen := vstat.Pick(100, 400)
+	if huge {
+		maxLen = 16 // every op stands for thousands of calls
+	}
 	chunk := rapid.SliceOfN(opGen, 0, 12)
 	var ops []Op
 	switch rapid.IntRange(0, 3).Draw(t, "shape") {
